@@ -436,6 +436,17 @@ fn check_built(rep: &mut Report, b: &Built, rng: &mut Rng, tb: &Tables) {
         fops.push(f);
         fops.push(-f);
         fops.push(f as f32 as f64);
+        // the neighbouring doubles (1 and 2 ulp away) and the neighbours of its f32 rounding
+        if f.is_finite() {
+            let b = f.to_bits();
+            for d in [1u64, 2] {
+                fops.push(f64::from_bits(b.wrapping_add(d)));
+                fops.push(f64::from_bits(b.wrapping_sub(d)));
+            }
+            let b32 = (f as f32).to_bits();
+            fops.push(f32::from_bits(b32.wrapping_add(1)) as f64);
+            fops.push(f32::from_bits(b32.wrapping_sub(1)) as f64);
+        }
     }
     for o in operands.iter().take(4) {
         fops.push(*o as f64);
